@@ -18,6 +18,8 @@
    optional wrapping, array literal) | take z x (z <- x.removeFirst()) | destroy x | consume x |
    call name ys (arguments are moved left to right) | use x | swap x y | append x y
    (x.append(<-y)) | fassign x y (x <-! y) | assign x y (x <- y) | shift z x y (var z <- x <- y) |
+   cmove x (x is moved inside a CONDITIONALLY EVALUATED operand: c && f(<-x), c || f(<-x), o ?? f(<-x),
+   c ? f(<-x) : 0 -- the move happens or not, nondeterministically) |
    if then else | iflet y x then else (if let y <- x) | while body | for body | break | continue |
    return [x] | panic | fun name params body (nested function: analysed as its own entry point).
 
@@ -161,6 +163,9 @@ Exec(st) ==
          ELSE Cont(SetTop(DeclIn(Rest(Top), st.z)), Bind(env, st.z, "valid"))
     [] st.t \in {"destroy", "consume"} ->
          IF ~Valid(st.x) THEN Stop(TRUE) ELSE ContInv(Advance, Bind(env, st.x, "invalid"), {st.x})
+    [] st.t = "cmove" ->                          \* the operand holding the move may or may not be evaluated
+         \/ Cont(Advance, env)
+         \/ (IF ~Valid(st.x) THEN Stop(TRUE) ELSE ContInv(Advance, Bind(env, st.x, "invalid"), {st.x}))
     [] st.t = "call" ->
          LET m == MoveAll(env, st.ys) IN
          IF ~m.ok THEN Stop(TRUE) ELSE ContInv(Advance, m.e, Range(st.ys))
